@@ -28,6 +28,8 @@ mod replication_fetcher;
 pub mod target_arch;
 mod transactions;
 mod transport;
+#[cfg(maidsafe_safe_network_verif)]
+pub mod verif;
 
 use cmd::LocalSwarmCmd;
 use xor_name::XorName;
@@ -1256,6 +1258,8 @@ pub(crate) fn send_local_swarm_cmd(swarm_cmd_sender: Sender<LocalSwarmCmd>, cmd:
 
     // Spawn a task to send the SwarmCmd and keep this fn sync
     let _handle = spawn(async move {
+        #[cfg(maidsafe_safe_network_verif)]
+        crate::verif::gate("send.local_cmd", format!("{cmd:?}")).await;
         if let Err(error) = swarm_cmd_sender.send(cmd).await {
             error!("Failed to send SwarmCmd: {}", error);
         }
@@ -1277,6 +1281,8 @@ pub(crate) fn send_network_swarm_cmd(
 
     // Spawn a task to send the SwarmCmd and keep this fn sync
     let _handle = spawn(async move {
+        #[cfg(maidsafe_safe_network_verif)]
+        crate::verif::gate("send.network_cmd", format!("{cmd:?}")).await;
         if let Err(error) = swarm_cmd_sender.send(cmd).await {
             error!("Failed to send SwarmCmd: {}", error);
         }
